@@ -35,7 +35,7 @@ MUTATIONS += [
     dict(name="increment_uses_last_weight_row", props=["C02", "C01"], file=IT,
          old="            self.dState = timestep * D.ar_numpy.sum(self.stage_values * self.tableau_final[0, 1:], axis=-1)",
          new="            self.dState = timestep * D.ar_numpy.sum(self.stage_values * self.tableau_final[-1, 1:], axis=-1)"),
-    dict(name="splitting_time_advances_with_kicks", props=["C02", "C10", "C01"], file=IT,
+    dict(name="splitting_time_advances_with_kicks", props=["C02", "C01"], file=IT,   # (C10 quantifies over autonomous Hamiltonians: not expected there)
          old="            current_time = current_time + timestep * self.tableau_intermediate[stage, 1]",
          new="            current_time = current_time + timestep * self.tableau_intermediate[stage, 2]"),
     dict(name="richardson_denominator_off_by_one", props=["C01"], file=IT,
@@ -56,9 +56,8 @@ MUTATIONS += [
          new="    true_conv = (fa * fb <= 0) & true_conv"),
     dict(name="landing_goes_to_first_root", props=["C09"], file=DS,
          old="                            self.integrate(roots[-1])", new="                            self.integrate(roots[0])"),
-    dict(name="newton_jacobian_wrong_for_negative_steps", props=["C11", "C02"], file=IT,
-         old="                    self.__jac[idx:idx + __step, jdx:jdx + __step] -= timestep * self.tableau_intermediate",
-         new="                    self.__jac[idx:idx + __step, jdx:jdx + __step] -= D.ar_numpy.abs(timestep) * self.tableau_intermediate"),
+    # (not listed: a wrong Newton matrix, e.g. abs(timestep) in algebraic_system_jacobian, only changes convergence, never an accepted value:
+    #  behaviourally equivalent with respect to every listed property)
     dict(name="failure_cause_dropped", props=["C12"], file=DS,
          old="            new_e.__cause__ = e\n", new="            pass\n"),
     dict(name="reset_keeps_dt", props=["C13"], file=DS,
@@ -66,7 +65,7 @@ MUTATIONS += [
     dict(name="brent_scalar_initial_swap_dropped", props=["C14"], file=OP,
          old="    if D.ar_numpy.abs(fa) < D.ar_numpy.abs(fb):\n        a, b = b, a\n        fa, fb = fb, fa\n\n    c = D.ar_numpy.copy(a)",
          new="    c = D.ar_numpy.copy(a)"),
-    dict(name="residual_gate_disabled", props=["C15", "C02"], file=OP,
+    dict(name="residual_gate_disabled", props=["C15"], file=OP,   # (C02 is protected by the integrators' own prec < desired_tol gate)
          old="    return bool(Fn <= xtol * D.ar_numpy.maximum(1.0, D.ar_numpy.linalg.norm(J)) and Fn <= tol * (J.shape[0] + Fn_initial))",
          new="    return True"),
     dict(name="fd_jacobian_layout_transposed", props=["C16"], file=U,
@@ -81,7 +80,10 @@ MUTATIONS += [
     dict(name="final_step_test_reverted", props=["C03", "C04", "C18"], file=DS,
          old="if not implicit_integration and D.ar_numpy.abs(self.dt) > D.ar_numpy.abs(tf - self.__t[self.counter]):",
          new="if not implicit_integration and D.ar_numpy.abs(self.dt + self.__t[self.counter]) > D.ar_numpy.abs(tf):"),
-    dict(name="gauss_legendre4_a12_perturbed", props=["C10", "C01", "C11"], file="desolver/integrators/implicit_integration_schemes.py",
+    dict(name="gauss_legendre4_a12_perturbed", props=["C10", "C01"], file="desolver/integrators/implicit_integration_schemes.py",   # (this sign adds damping: |R| stays <= 1)
          old="        [[0.5 - s / 6, 0.25, 0.25 - s / 6],\n         [0.5 + s / 6, 0.25 + s / 6, 0.25]], dtype=numpy.float64",
          new="        [[0.5 - s / 6, 0.25 + 1e-3, 0.25 - s / 6 - 1e-3],\n         [0.5 + s / 6, 0.25 + s / 6, 0.25]], dtype=numpy.float64"),
+    dict(name="gauss_legendre4_a11_perturbed_minus", props=["C11", "C10", "C01"], file="desolver/integrators/implicit_integration_schemes.py",
+         old="        [[0.5 - s / 6, 0.25, 0.25 - s / 6],\n         [0.5 + s / 6, 0.25 + s / 6, 0.25]], dtype=numpy.float64",
+         new="        [[0.5 - s / 6, 0.25 - 1e-3, 0.25 - s / 6 + 1e-3],\n         [0.5 + s / 6, 0.25 + s / 6, 0.25]], dtype=numpy.float64"),
 ]
